@@ -73,6 +73,7 @@ func String(n int) string { return string(Bytes(n)) }
 func Choose(n int) int    { return int(next("choice")) }
 func MaxLen(n int)        {}
 func Unwind(n int)        {}
+func MaxDepth(n int)      {}
 func MaxPreempt(n int)    {}
 func AllocCap(n int)      {}
 func Assume(c bool) {
